@@ -903,7 +903,11 @@ func vRbfPure(out *vWriter, master *vrng) {
 		case 2:
 			// OP_PUSHDATA1/2/4 with lengths around MaxDataCarrierSize
 			l := vPick(r, 0, 1, 75, 79, 80, 81, 82, 255)
-			d := r.bytes(int(l + vPick(r, 0, 0, 0, 1, -1)))
+			dl := l + vPick(r, 0, 0, 0, 1, -1)
+			if dl < 0 {
+				dl = 0
+			}
+			d := r.bytes(int(dl))
 			switch r.intn(3) {
 			case 0:
 				s = append([]byte{0x6a, 0x4c, byte(l)}, d...)
